@@ -63,6 +63,19 @@ func c02Run(r *sim.Run) {
 	if err := encodeTo(r, "Encode(clean)", o, clean); err != nil {
 		r.Probe("clean-encode-fails(vacuous)")
 		r.Logf("clean encode fails: %v (property is conditional on success)", err)
+		// ... but the other encoder may still report success, and then the statement binds it
+		out, e2, _ := encodeSWTo(r, "EncodeSW(large)", o, int(sizeBefore)+64+t.Draw(64))
+		if e2 == nil {
+			var sz uint64
+			r.Guard("Size", func() { sz = o.Size() })
+			if uint64(len(out)) != sz {
+				r.Violate("c02-sw-size", "%s: Encode fails (%v) but EncodeSW reports success having written %d bytes while Size() is %d", nd.desc, err, len(out), sz)
+			} else if nd.boxSeq {
+				if err := ref.CheckSizes(out); err != nil {
+					r.Violate("c02-header-size", "%s: EncodeSW succeeded (Encode fails); size fields of the written boxes are inconsistent: %v", nd.desc, err)
+				}
+			}
+		}
 		return
 	}
 	M := append([]byte(nil), clean.Buf...)
